@@ -99,7 +99,7 @@ def build_coq(targets):
     """make the .vo files a property needs; returns (ok, output)"""
     with Lock('coq.lock'):
         ensure_makefile()
-        rc, out = sh(['make', '-j%d' % NCPU] + targets, cwd=COQ, timeout=3000)
+        rc, out = sh(['make', '-j%d' % NCPU] + list(targets) + ['theories/Base/WireProps.vo'], cwd=COQ, timeout=3000)
     return rc == 0, out
 
 
